@@ -50,3 +50,32 @@ R.contract("Unpacker.unpack_fstring", params={"self": "Unpacker", "n": "int"}, r
                     ("in-buffer", "upos(self) <= len(ubuf(self))")],
            raises=[Raise("ConversionError", "n < 0 or upos(self) + (n + 3) // 4 * 4 > len(ubuf(self))", "iff")],
            modifies=["self._Unpacker__pos"], props=["C01", "C04"])
+
+# the remaining primitives are not used by the package today; they are under contract so that a change
+# which starts using one of them is decided (and not merely 'unsupported')
+R.macro("s32v", ["b"], "ite(u32(b) < 2**31, u32(b), u32(b) - 2**32)")
+R.contract("Packer.pack_int", params={"self": "Packer", "x": "int"},
+           ensures=[("appends-be32", "pbuf(self) == old(pbuf(self)) + be32(x % 2**32)")],
+           raises=[Raise("ConversionError", "not (-2**31 <= x < 2**31)", "iff")],
+           modifies=["self._Packer__buf.data"], props=["C01"])
+R.contract("Unpacker.unpack_int", params={"self": "Unpacker"}, returns="int",
+           requires=["upos(self) >= 0"],
+           ensures=[("value", "result == s32v(ubuf(self)[old(upos(self)):old(upos(self)) + 4])"),
+                    ("advance", "upos(self) == old(upos(self)) + 4"),
+                    ("in-buffer", "upos(self) <= len(ubuf(self))")],
+           raises=[Raise("ConversionError", "upos(self) + 4 > len(ubuf(self))", "iff")],
+           modifies=["self._Unpacker__pos"], props=["C01", "C02", "C04"])
+R.contract("Unpacker.unpack_char", params={"self": "Unpacker"}, returns="int",
+           requires=["upos(self) >= 0"],
+           ensures=[("value", "result == u8(ubuf(self)[old(upos(self)):old(upos(self)) + 1])"),
+                    ("advance", "upos(self) == old(upos(self)) + 1"),
+                    ("in-buffer", "upos(self) <= len(ubuf(self))")],
+           raises=[Raise("ConversionError", "upos(self) + 1 > len(ubuf(self))", "iff")],
+           modifies=["self._Unpacker__pos"], props=["C04"])
+R.contract("Unpacker.unpack_uhyper", params={"self": "Unpacker"}, returns="int",
+           requires=["upos(self) >= 0"],
+           ensures=[("value", "result == u32(ubuf(self)[old(upos(self)):old(upos(self)) + 4]) * 2**32 + "
+                              "u32(ubuf(self)[old(upos(self)) + 4:old(upos(self)) + 8])"),
+                    ("advance", "upos(self) == old(upos(self)) + 8")],
+           raises=[Raise("ConversionError", "upos(self) + 8 > len(ubuf(self))", "iff")],
+           modifies=["self._Unpacker__pos"], props=["C04"])
